@@ -12,7 +12,7 @@ Record xf := mkXf { x_rd : bool; x_ad : bool; x_strip : bool }.
 
 Definition xform (x : xf) (m : msg) : msg :=
   mkMsg (m_id m) (m_rcode m) false (m_tc m)
-        (if x_rd x then false else m_rd m) (if x_ad x then false else m_ad m) (m_q m)
+        (if x_rd x then false else m_rd m) (if x_ad x then false else m_ad m) (m_q m) (m_qcase m)
         (if x_strip x then filter keep_rr (m_an m) else m_an m)
         (if x_strip x then filter keep_rr (m_ns m) else m_ns m)
         (if x_strip x then filter keep_rr (m_ar m) else m_ar m) (m_broken m).
@@ -467,26 +467,44 @@ Definition inv (cfg : config) (st : state) : Prop := invC cfg (s_log st) (s_cach
 Lemma inv_init cfg : inv cfg state_init.
 Proof. intros k v []. Qed.
 
+Lemma start_inv cfg st k op qc now st' sr :
+  inv cfg st -> start cfg st k op qc now = Ok (st', sr) -> inv cfg st' /\ s_log st' = s_log st.
+Proof.
+  intros I. unfold start.
+  destruct (negb ((op =? 0) && (k_class k =? class_in))); [intros [= <- _]; auto|].
+  destruct (cache_lookup cfg k (s_cache st)) as [[c1 res]| | |] eqn:LK; cbn [bind]; try discriminate.
+  destruct (lookup_rd_do_ad_inv cfg _ k _ _ I LK) as [I1 _]; cbn [fst] in I1.
+  destruct res as [v| |e].
+  - destruct (get_response v now qc) as [[s|e| |]|]; try discriminate; intros [= <- _]; (split; [exact I1|reflexivity]).
+  - intros [= <- _]; split; [exact I1|reflexivity].
+  - intros [= <- _]; split; [exact I1|reflexivity].
+Qed.
+
+Definition forwarded (o : obs) : Prop := o = OForwarded \/ exists e, o = OFwdErr e.
+
+Lemma finish_inv cfg st k t u st' o :
+  inv cfg st -> finish cfg st k t u = Ok (st', o) ->
+  inv cfg st' /\ forwarded o /\ s_log st' = (k, t, u) :: s_log st.
+Proof.
+  intros I. unfold finish.
+  destruct (validity cfg u) as [val|e| |] eqn:V; try discriminate.
+  - destruct (cache_insert cfg k (mkValue t val u) (s_cache st)) as [c2| | |] eqn:CI; cbn [bind]; try discriminate.
+    intros [= <- <-]. split; [|split; [left; reflexivity|reflexivity]].
+    unfold inv; cbn [s_cache s_log]. eapply cache_insert_fresh; eassumption.
+  - intros [= <- <-]. split; [|split; [right; eauto|reflexivity]].
+    unfold inv; cbn [s_cache s_log]. intros k1 v1 H1. apply prov_mono. auto.
+Qed.
+
 Lemma step_inv cfg st ev st' o : inv cfg st -> step cfg st ev = Ok (st', o) -> inv cfg st'.
 Proof.
-  intros I. destruct ev as [k op now delay u|n]; cbn [step].
-  - destruct (negb ((op =? 0) && (k_class k =? class_in))); [intros [= <- _]; exact I|].
-    destruct (cache_lookup cfg k (s_cache st)) as [[c1 res]| | |] eqn:LK; cbn [bind]; try discriminate.
-    destruct (lookup_rd_do_ad_inv cfg _ k _ _ I LK) as [I1 _]; cbn [fst] in I1.
-    assert (Hfwd : match validity cfg u with
-       | Ok val => do c2 <- cache_insert cfg k (mkValue (now + delay) val u) c1;
-                   Ok (mkState c2 ((k, now + delay, u) :: s_log st), OForwarded)
-       | Err e => Ok (mkState c1 ((k, now + delay, u) :: s_log st), OFwdErr e)
-       | Panic p => Panic p | OutOfFuel => OutOfFuel end = Ok (st', o) -> inv cfg st').
-    { destruct (validity cfg u) as [val|e| |] eqn:V; try discriminate.
-      - destruct (cache_insert cfg k (mkValue (now + delay) val u) c1) as [c2| | |] eqn:CI; cbn [bind]; try discriminate.
-        intros [= <- _]. unfold inv; cbn [s_cache s_log]. eapply cache_insert_fresh; eassumption.
-      - intros [= <- _]. unfold inv; cbn [s_cache s_log]. intros k1 v1 H1. apply prov_mono. auto. }
-    destruct res as [v| |e].
-    + destruct (get_response v now) as [[s|e| |]|]; try discriminate; try exact Hfwd;
-        intros [= <- _]; exact I1.
-    + exact Hfwd.
-    + intros [= <- _]; exact I1.
+  intros I. destruct ev as [k op qc now delay u|k op qc now|k t u|n]; cbn [step].
+  - destruct (start cfg st k op qc now) as [[st1 sr]| | |] eqn:S; cbn [bind]; try discriminate.
+    destruct (start_inv _ _ _ _ _ _ _ _ I S) as [I1 _].
+    destruct sr; try (intros [= <- _]; exact I1).
+    intros F. apply (finish_inv _ _ _ _ _ _ _ I1 F).
+  - destruct (start cfg st k op qc now) as [[st1 sr]| | |] eqn:S; cbn [bind]; try discriminate.
+    destruct (start_inv _ _ _ _ _ _ _ _ I S) as [I1 _]. intros [= <- _]; exact I1.
+  - intros F. apply (finish_inv _ _ _ _ _ _ _ I F).
   - intros [= <- _]. unfold inv; cbn [s_cache s_log]. intros k v H. apply I. eapply evict_In; exact H.
 Qed.
 
@@ -500,53 +518,50 @@ Proof.
 Qed.
 
 (* the ghost log is the history: each entry is a forwarded QUERY/IN request of it *)
-Definition forwarded (o : obs) : Prop := o = OForwarded \/ exists e, o = OFwdErr e.
-
 Definition logged (evs : list event) (os : list obs) (e : key * N * resp) : Prop :=
-  exists i now delay,
-    nth_error evs i = Some (EQuery (fst (fst e)) 0 now delay (snd e)) /\
-    snd (fst e) = now + delay /\ exists o, nth_error os i = Some o /\ forwarded o.
+  exists i o, nth_error os i = Some o /\ forwarded o /\
+    ((exists qc now delay,
+        nth_error evs i = Some (EQuery (fst (fst e)) 0 qc now delay (snd e)) /\ snd (fst e) = now + delay) \/
+     nth_error evs i = Some (EFinish (fst (fst e)) (snd (fst e)) (snd e))).
+
+Lemma start_miss_query cfg st k op qc now st' :
+  start cfg st k op qc now = Ok (st', SMiss) -> op = 0.
+Proof.
+  unfold start. destruct (negb ((op =? 0) && (k_class k =? class_in))) eqn:B; [discriminate|].
+  apply negb_false_iff, andb_true_iff in B. destruct B as [B _]. apply N.eqb_eq in B. auto.
+Qed.
 
 Lemma step_log cfg st ev st' o e :
-  step cfg st ev = Ok (st', o) -> In e (s_log st') ->
-  In e (s_log st) \/ (forwarded o /\ exists now delay,
-     ev = EQuery (fst (fst e)) 0 now delay (snd e) /\ snd (fst e) = now + delay).
+  inv cfg st -> step cfg st ev = Ok (st', o) -> In e (s_log st') ->
+  In e (s_log st) \/ (forwarded o /\
+    ((exists qc now delay, ev = EQuery (fst (fst e)) 0 qc now delay (snd e) /\ snd (fst e) = now + delay) \/
+     ev = EFinish (fst (fst e)) (snd (fst e)) (snd e))).
 Proof.
-  destruct ev as [k op now delay u|n]; cbn [step].
-  - destruct (negb ((op =? 0) && (k_class k =? class_in))) eqn:B; [intros [= <- _]; now left|].
-    apply negb_false_iff, andb_true_iff in B. destruct B as [B _]. apply N.eqb_eq in B. subst op.
-    destruct (cache_lookup cfg k (s_cache st)) as [[c1 res]| | |]; cbn [bind]; try discriminate.
-    assert (Hfwd : match validity cfg u with
-       | Ok val => do c2 <- cache_insert cfg k (mkValue (now + delay) val u) c1;
-                   Ok (mkState c2 ((k, now + delay, u) :: s_log st), OForwarded)
-       | Err e => Ok (mkState c1 ((k, now + delay, u) :: s_log st), OFwdErr e)
-       | Panic p => Panic p | OutOfFuel => OutOfFuel end = Ok (st', o) -> In e (s_log st') ->
-       In e (s_log st) \/ (forwarded o /\ exists now0 delay0,
-         EQuery k 0 now delay u = EQuery (fst (fst e)) 0 now0 delay0 (snd e) /\ snd (fst e) = now0 + delay0)).
-    { destruct (validity cfg u) as [val|e0| |]; try discriminate.
-      - destruct (cache_insert cfg k _ c1) as [c2| | |]; cbn [bind]; try discriminate.
-        intros [= <- <-]; cbn [s_log]. intros [<-|H]; [right|now left].
-        split; [left; reflexivity|]. exists now, delay; cbn [fst snd]. auto.
-      - intros [= <- <-]; cbn [s_log]. intros [<-|H]; [right|now left].
-        split; [right; eauto|]. exists now, delay; cbn [fst snd]. auto. }
-    destruct res as [v| |e0].
-    + destruct (get_response v now) as [[s|e0| |]|]; try discriminate; try exact Hfwd;
-        intros [= <- _]; now left.
-    + exact Hfwd.
-    + intros [= <- _]; now left.
+  intros I. destruct ev as [k op qc now delay u|k op qc now|k t u|n]; cbn [step].
+  - destruct (start cfg st k op qc now) as [[st1 sr]| | |] eqn:S; cbn [bind]; try discriminate.
+    destruct (start_inv _ _ _ _ _ _ _ _ I S) as [I1 L1].
+    destruct sr; try (intros [= <- _]; rewrite L1; now left).
+    intros F. destruct (finish_inv _ _ _ _ _ _ _ I1 F) as (_ & Fw & L). rewrite L, L1.
+    intros [<-|H]; [right|now left]. split; [exact Fw|]. left.
+    rewrite (start_miss_query _ _ _ _ _ _ _ S). exists qc, now, delay. cbn [fst snd]. auto.
+  - destruct (start cfg st k op qc now) as [[st1 sr]| | |] eqn:S; cbn [bind]; try discriminate.
+    destruct (start_inv _ _ _ _ _ _ _ _ I S) as [_ L1]. intros [= <- _]; rewrite L1; now left.
+  - intros F. destruct (finish_inv _ _ _ _ _ _ _ I F) as (_ & Fw & L). rewrite L.
+    intros [<-|H]; [right|now left]. split; [exact Fw|]. right. reflexivity.
   - intros [= <- _]; now left.
 Qed.
 
-Lemma run_log cfg evs : forall st st' os e,
+Lemma run_log cfg evs : forall st st' os e, inv cfg st ->
   run cfg st evs = Ok (st', os) -> In e (s_log st') -> In e (s_log st) \/ logged evs os e.
 Proof.
-  induction evs as [|ev t IH]; intros st st' os e; cbn [run].
+  induction evs as [|ev t IH]; intros st st' os e I; cbn [run].
   - intros [= <- _]; now left.
   - destruct (step cfg st ev) as [[st1 o]| | |] eqn:St; cbn [bind]; try discriminate.
     destruct (run cfg st1 t) as [[st2 os2]| | |] eqn:R; cbn [bind]; try discriminate.
     intros [= <- <-] H.
-    destruct (IH _ _ _ _ R H) as [H1|(i & now & delay & E1 & E2 & E3)].
-    + destruct (step_log _ _ _ _ _ _ St H1) as [H0|(Fw & now & delay & -> & E2)]; [now left|].
-      right. exists O, now, delay; cbn [nth_error]; eauto.
-    + right. exists (S i), now, delay; cbn [nth_error]; auto.
+    destruct (IH _ _ _ _ (step_inv _ _ _ _ _ I St) R H) as [H1|(i & o' & E1 & E2 & E3)].
+    + destruct (step_log _ _ _ _ _ _ I St H1) as [H0|(Fw & Hev)]; [now left|].
+      right. exists O, o. cbn [nth_error]. split; [reflexivity|]. split; [exact Fw|].
+      destruct Hev as [(qc & now & delay & -> & E)| -> ]; [left; eauto|right; reflexivity].
+    + right. exists (S i), o'; cbn [nth_error]; auto.
 Qed.
